@@ -54,6 +54,27 @@ func vpGenBody(t *rapid.T, max int) []byte {
 	}
 }
 
+// vpGenMultipartBody builds a well-formed multipart/form-data body (boundary "xyz") whose epilogue -
+// the bytes after the closing boundary, still inside the framed body - may hold a complete request.
+func vpGenMultipartBody(t *rapid.T) []byte {
+	var b bytes.Buffer
+	n := rapid.IntRange(0, 2).Draw(t, "mpparts")
+	for i := 0; i < n; i++ {
+		fmt.Fprintf(&b, "--xyz\r\nContent-Disposition: form-data; name=\"f%d\"\r\n\r\nvalue%d\r\n", i, i)
+	}
+	b.WriteString("--xyz--")
+	switch rapid.IntRange(0, 3).Draw(t, "mpepilogue") {
+	case 0:
+	case 1:
+		b.WriteString("\r\n")
+	case 2:
+		b.WriteString("\r\n" + vpSmuggled)
+	default:
+		b.WriteString("\r\nepilogue text\r\n")
+	}
+	return b.Bytes()
+}
+
 // vpChunkEncode encodes body as chunked with generated chunk splits; ops may sabotage it.
 func vpChunkEncode(t *rapid.T, body []byte, sabotage string) []byte {
 	var b bytes.Buffer
@@ -222,9 +243,16 @@ func vpGenRequest(t *rapid.T, idx int, o vpGenOpts) vpGenReq {
 		method, framing = "HEAD", rapid.SampledFrom([]string{"cl", "chunked"}).Draw(t, "hwb")
 	}
 	var body, wire []byte
+	realMultipart := false
+	if o.AllowMultipart && (framing == "cl" || framing == "chunked") && rapid.IntRange(0, 5).Draw(t, "realmp") == 0 {
+		realMultipart = true
+	}
 	switch framing {
 	case "cl":
 		body = vpGenBody(t, o.MaxBody)
+		if realMultipart {
+			body = vpGenMultipartBody(t)
+		}
 		wire = body
 		hdrs = append(hdrs, hdr{"Content-Length", ": ", fmt.Sprint(len(body)), "\r\n"})
 	case "cl0":
@@ -237,7 +265,10 @@ func vpGenRequest(t *rapid.T, idx int, o vpGenOpts) vpGenReq {
 	if chunkOp != "" {
 		ops = append(ops, chunkOp)
 	}
-	if len(body) > 0 && rapid.IntRange(0, 3).Draw(t, "ctype") == 0 {
+	if realMultipart {
+		hdrs = append(hdrs, hdr{"Content-Type", ": ", "multipart/form-data; boundary=xyz", "\r\n"})
+		ops = append(ops, "multipart-body")
+	} else if len(body) > 0 && rapid.IntRange(0, 3).Draw(t, "ctype") == 0 {
 		ct := "text/plain"
 		if o.AllowMultipart && rapid.IntRange(0, 3).Draw(t, "mp") == 0 {
 			ct = "multipart/form-data; boundary=xyz"
